@@ -17,6 +17,8 @@
 //@harness c23_cmp_scalar_tri_float complete "left operand float against Null, Bool, Int, Float, DateTime, NodeId (symbolic payloads), all four comparison operators: result is Bool or Null; Null if an operand is Null"
 //@harness c23_cmp_scalar_tri_datetime complete "left operand datetime against Null, Bool, Int, Float, DateTime, NodeId (symbolic payloads), all four comparison operators: result is Bool or Null; Null if an operand is Null"
 //@harness c23_cmp_scalar_tri_nodeid complete "left operand nodeid against Null, Bool, Int, Float, DateTime, NodeId (symbolic payloads), all four comparison operators: result is Bool or Null; Null if an operand is Null"
+//@harness c23_cmp_bool_and_cross_kind complete "Bool against Bool: <, <=, >, >= follow false < true and agree with =; operands of different comparable kinds (Bool/Int/Float/DateTime/NodeId, not both numeric) give null for all four operators"
+//@harness c23_cmp_list_b2 bounded(len<=2) "2-element Int lists on stack arrays: <, <=, >, >= are the lexicographic comparison and agree with each other; a shorter prefix is smaller"
 //@harness c23_cmp_i64_f64_exact complete "compare_i64_f64 against exact integer arithmetic for every i64 and every finite f64 whose value is an integer below 2^63 in magnitude"
 #[cfg(kani)]
 mod verif_kani_c23_cmp {
@@ -123,5 +125,51 @@ mod verif_kani_c23_cmp {
         let h = f + 0.5;
         assert!(compare_i64_f64(i, h) == if i <= j { Ordering::Less } else { Ordering::Greater }, "C23.cmp.i64_f64.exact_on_halves");
         kani::cover!(i == j, "reach: equal");
+    }
+    #[kani::proof]
+    fn c23_cmp_bool_and_cross_kind() {
+        let (p, q): (u64, u64) = (kani::any(), kani::any());
+        let (a, b) = (p & 1 == 1, q & 1 == 1);
+        let (va, vb) = (Value::Bool(a), Value::Bool(b));
+        assert!(lt(&va, &vb) == (!a && b) as u8, "C23.cmp.bool.order.lt");
+        assert!(le(&va, &vb) == (!a || b) as u8, "C23.cmp.bool.order.le");
+        assert!(gt(&va, &vb) == (a && !b) as u8, "C23.cmp.bool.order.gt");
+        assert!(ge(&va, &vb) == (a || !b) as u8, "C23.cmp.bool.order.ge");
+        assert!((le(&va, &vb) == 1) == (lt(&va, &vb) == 1 || tri(cypher_equals(&va, &vb)) == 1), "C23.cmp.bool.le_is_lt_or_eq");
+        // kinds 1..=5 of `scalar`: Bool, Int, Float, DateTime, NodeId
+        let mut ka = 1u8;
+        while ka < 6 {
+            let mut kb = 1u8;
+            while kb < 6 {
+                let numeric = |k: u8| k == 2 || k == 3;
+                if ka != kb && !(numeric(ka) && numeric(kb)) {
+                    let (x, y) = (scalar(ka, p), scalar(kb, q));
+                    assert!(lt(&x, &y) == 2 && le(&x, &y) == 2 && gt(&x, &y) == 2 && ge(&x, &y) == 2, "C23.cmp.cross_kind_is_null");
+                    core::mem::forget(x);
+                    core::mem::forget(y);
+                }
+                kb += 1;
+            }
+            ka += 1;
+        }
+        kani::cover!(a && !b, "reach: true vs false");
+    }
+
+    #[kani::proof]
+    #[kani::unwind(4)]
+    fn c23_cmp_list_b2() {
+        let (p1, p2, q1, q2): (i64, i64, i64, i64) = (kani::any(), kani::any(), kani::any(), kani::any());
+        // stack arrays wrapped by hand: compare_lists_for_range takes slices (a Vec would put the tags on the heap)
+        let l = [Value::Int(p1), Value::Int(p2)];
+        let r = [Value::Int(q1), Value::Int(q2)];
+        let want = (p1, p2).cmp(&(q1, q2));
+        let t = |v: Value| tri(v);
+        assert!(t(compare_lists_for_range(&l, &r, &|o: Ordering| o == Ordering::Less)) == (want == Ordering::Less) as u8, "C23.cmp.list.lt.b2");
+        assert!(t(compare_lists_for_range(&l, &r, &|o: Ordering| o == Ordering::Less || o == Ordering::Equal)) == (want != Ordering::Greater) as u8, "C23.cmp.list.le.b2");
+        assert!(t(compare_lists_for_range(&l, &r, &|o: Ordering| o == Ordering::Greater)) == (want == Ordering::Greater) as u8, "C23.cmp.list.gt.b2");
+        assert!(t(compare_lists_for_range(&l[..1], &l, &|o: Ordering| o == Ordering::Less)) == 1, "C23.cmp.list.prefix_smaller.b2");
+        core::mem::forget(l);
+        core::mem::forget(r);
+        kani::cover!(p1 == q1 && p2 < q2, "reach: decided by the second element");
     }
 }
